@@ -1,5 +1,6 @@
 import BSEModel.Notation
 import BSEGen.Index
+import BSEProofs.Lemmas.ElementsText
 /-! # C20 — element, name and angular-momentum notations convert back and forth without loss
 
 Property theorems.  The tables (`dataTable`, `amcharHik/Hij`, `aminfo`, `specialAm`) are the ones
@@ -115,6 +116,87 @@ theorem expand_compact (S : List Nat) :
   ⟨expand_compact_pieces _ (sortDedup_sorted S), sortDedup_sorted S, mem_sortDedup S⟩
 
 example : expandPieces (compactPieces (sortDedup [10, 1, 2, 3, 8, 6, 7, 2])) = [1, 2, 3, 6, 7, 8, 10] := by decide
+
+/-! ### the text layer: `expand_elements(compact_elements(S))` on the strings themselves -/
+
+/-- for every Z of the table: the symbol `compact_elements` prints is a word of letters, and `expand_elements` reads it as Z -/
+theorem known_Z : ∀ z ∈ List.range' 1 118, KnownZ z := by
+  have h : ∀ z ∈ List.range' 1 118,
+      (match symFromZNorm z with
+       | some w => wordB w && (match zFromStr w with | .ok n => n == z | .error _ => false)
+       | none => false) = true := by decide +kernel
+  intro z hz
+  have hz' := h z hz
+  cases hs : symFromZNorm z with
+  | none => simp [hs] at hz'
+  | some w =>
+    simp only [hs, Bool.and_eq_true] at hz'
+    have hsym : symOf z = w := by simp [symOf, hs]
+    refine ⟨by rw [hsym]; exact hs, by rw [hsym]; exact word_of_wordB w hz'.1, ?_⟩
+    rw [hsym]
+    cases hr : zFromStr w with
+    | error e => simp [hr] at hz'
+    | ok n =>
+      simp only [hr, beq_iff_eq] at hz'
+      rw [hz'.2]
+
+/-- **`expand_elements(compact_elements(S))` is the sorted set S, on the strings themselves**: for every non-empty list of atomic
+numbers 1..118 (any order, any repetitions) `compact_elements` produces a string, and `expand_elements` — its squeezing of
+repeated separators, removal of white space, stripping of commas, its four malformed-pattern tests, the split at the commas
+and the expansion of every `A-B` — turns that string into exactly the strictly increasing list of the members of S -/
+theorem expand_compact_text (S : List Nat) (hne : S ≠ []) (hz : ∀ z ∈ S, z ∈ List.range' 1 118) :
+    ∃ s, compactElements S = some s ∧ expandStr s = .ok (sortDedup S) := by
+  have hknown : ∀ z ∈ sortDedup S, KnownZ z := fun z hzm => known_Z z (hz z ((mem_sortDedup S z).1 hzm))
+  have hpk := pieces_known (sortDedup S) hknown
+  refine ⟨_, compactElements_text S hpk, ?_⟩
+  -- the token list is not empty and every token is well-formed
+  have hS : sortDedup S ≠ [] := by
+    obtain ⟨z, hzS⟩ := List.exists_mem_of_ne_nil S hne
+    intro h0
+    have := (mem_sortDedup S z).2 hzS
+    rw [h0] at this
+    cases this
+  have hps : compactPieces (sortDedup S) ≠ [] := by
+    cases hsd : sortDedup S with
+    | nil => exact absurd hsd hS
+    | cons x xs =>
+      unfold compactPieces runs
+      simp only [List.map_eq_nil_iff, ne_eq]
+      cases xs with
+      | nil => simp [runsAux]
+      | cons y ys =>
+        unfold runsAux
+        split
+        · intro h
+          -- runsAux never returns the empty list
+          have : ∀ (l : List Nat) (s e : Nat), runsAux s e l ≠ [] := by
+            intro l
+            induction l with
+            | nil => intro s e; simp [runsAux]
+            | cons a as ih => intro s e; unfold runsAux; split; exact ih _ _; simp
+          exact this _ _ _ h
+        · simp
+  have htoks_ne : (compactPieces (sortDedup S)).flatMap pieceToks ≠ [] := by
+    cases hp : compactPieces (sortDedup S) with
+    | nil => exact absurd hp hps
+    | cons p ps =>
+      have := (pieceToks_ok p (hpk p (by rw [hp]; simp))).2
+      simp only [List.flatMap_cons]
+      intro h
+      exact this (List.append_eq_nil_iff.1 h).1
+  have htoks_ok : ∀ t ∈ (compactPieces (sortDedup S)).flatMap pieceToks, t.OK := by
+    intro t ht
+    obtain ⟨p, hp, htp⟩ := List.mem_flatMap.1 ht
+    exact (pieceToks_ok p (hpk p hp)).1 t htp
+  rw [expandStr_joinToks _ htoks_ne htoks_ok]
+  obtain ⟨r, hr, hflat⟩ := expand_pieces _ hpk
+  rw [hr]
+  simp only [Except.map]
+  rw [hflat, expand_compact_pieces _ (sortDedup_sorted S)]
+
+/-- non-vacuity, on the text: seven numbers in disorder with a repetition -/
+example : compactElements [10, 1, 2, 3, 8, 6, 7, 2] = some "H-Li,C-O,Ne".toList
+    ∧ (match expandStr "H-Li,C-O,Ne".toList with | .ok r => r == [1, 2, 3, 6, 7, 8, 10] | .error _ => false) = true := by decide +kernel
 
 /-! ## 2. the element table -/
 
